@@ -86,3 +86,12 @@ def _(gene, sample, major_sols, solver, profile, min_cn_score, min_major_score, 
                     and sameobj(n.major_solution, m.major_solution) for m in refined_candidates()) for n in result),
             label="score-carry")
     modifies()
+
+
+@contract("aldy.genotype.genotype@structure-carry", native=False)
+def _(s, cn_sol, min_cn_score):
+    types(s="MajorSolution", cn_sol="CNSolution", min_cn_score="float")
+    # C10 mechanism "major solutions inherit the structure score difference": every major solution of a structure is
+    # charged the distance of that structure's score from the best structure's score (one iteration of the inner loop)
+    ensures(s.score == old(s.score) + cn_sol.score - min_cn_score, label="structure-score-difference-carried")
+    modifies(s)
